@@ -339,3 +339,4 @@ def run_case(case):
 
 # (appended: sub-lattices added after the seeded waves; kept out of the original RULE text for readability)
 RULE = RULE + '; plus: data-dependent scales with integer bits and a frozen (post-training) scale'
+RULE = RULE + '; fixed-point configurations with use_stochastic_rounding=True differentiated at learning phase 0'
